@@ -209,6 +209,31 @@ Theorem C10_prealloc_reached : forall courses esize shrinkf rooms nd a sets,
   room_sets courses esize shrinkf rooms nd a = Val (Some sets) -> exists w, room_window courses esize rooms a = Some w.
 Proof. exact room_sets_window. Qed.
 
+(* the u32 arithmetic of the scores (`score += INSTRUCTOR_SCORE`, the sum of the matched weights): the score of EVERY answer of a node --
+   Feasible or Infeasible, the latter feed the bounds of the search -- is the recomputed score of an assignment, hence between 0 and
+   participants * 50000 and, under the size bound the program checks, within u32 *)
+Theorem C10_scores_fit_u32 : forall courses parts esize shrinkf rooms nd r, Valid courses parts -> SizeOK courses parts ->
+  run_full courses parts esize shrinkf rooms nd = Val r ->
+  match r with Feasible _ s | Infeasible _ s => (0 <= s <= 4294967295)%Z | NoSolution => True end.
+Proof.
+  intros courses parts esize shrinkf rooms nd r V S H. pose proof (NodeThms.full_any_score courses parts esize shrinkf rooms V nd r H) as Hs.
+  destruct r as [|cs s|a s]; [exact I| |]; destruct Hs as (a' & ->); split;
+    try apply (NoOverflow.score_nonneg courses parts V); apply (NoOverflow.score_fits_u32 courses parts V _ S).
+Qed.
+(* the statistics line divides the elapsed time by the number of executed subproblems: a search that ends without a failing node solver
+   has executed at least one *)
+Theorem C10_executed_positive : forall (node sol : Type) root f smin smax k st,
+  EngP2.Reach node sol root f smin smax k st -> (forall i t, EngP2.T node sol st i = Some t -> t = EngP2.Done node) ->
+  (exists i, EngP2.T node sol st i = Some (EngP2.Done node)) -> 1 <= EngP2.n_ex node sol st.
+Proof. exact EngP2.executed_positive. Qed.
+
+(* the size clause of io::check_data_consistency stated on the PROBLEM (so for both input formats: for a CdE export the problem is
+   map Cde.to_course / map Cde.to_part of what the reader returns): it implies the size bound SizeOK of C10_total / C10_scores_fit_u32 *)
+Theorem C10_rows_checker : forall courses parts, rows_okb courses parts = true -> SizeOK courses parts.
+Proof. exact rows_okb_size_ok. Qed.
+
+Check C10_rows_checker.
+Check C10_scores_fit_u32. Check C10_executed_positive.
 Check C10_prealloc. Check C10_prealloc_reached.
 Check C10_never_hangs. Check C10_fixed_node. Check C10_fixed_total. Check C10_fixed_answered. Check C10_node_total. Check C10_total. Check C10_size_checker. Check C10_document_valid. Check C10_document_node. Check C10_float_sane_checker. Check C10_node. Check C10_node_class. Check C10_root_wf. Check C10_children_wf. Check C10_search. Check C10_no_failure. Check C10_never_stuck. Check C10_node_noroom.
 Print Assumptions C10_node.
@@ -217,6 +242,9 @@ Print Assumptions C10_total.
 Print Assumptions C10_fixed_node.
 Print Assumptions C10_never_hangs.
 Print Assumptions C10_prealloc.
+Print Assumptions C10_scores_fit_u32.
+Print Assumptions C10_rows_checker.
+Print Assumptions C10_executed_positive.
 Print Assumptions C10_prealloc_reached.
 Print Assumptions C10_fixed_total.
 Print Assumptions C10_fixed_answered.
